@@ -74,7 +74,7 @@ def cbFun : Option CbSpec → Callback
   | some (.suf s) => some (fun _ p => !endsWith p s)
 
 structure World where
-  fs : FS := {}
+  fs : FS := (({} : FS).add (bs "/dev") .dir).add (bs "/dev/null") (.file [] 0 0)
   g : Global := {}
   slots : Array (Option KeyFile) := Array.replicate 64 none
   logOpen : Bool := false
